@@ -130,28 +130,40 @@ let fields line =
   | [a; b] -> (a, b)
   | _ -> raise (Bad "fields")
 
-let parse_file path : case list =
-  let lines = Array.of_list (read_lines path) in
-  let n = Array.length lines in
-  let out = ref [] in
-  let i = ref 0 in
-  while !i < n do
-    let line = lines.(!i) in
-    if String.length line > 1 && line.[0] = 'H' && line.[1] = ' ' then begin
-      let (inp, o) = (try fields line with Bad m -> raise (Bad (Printf.sprintf "line %d: %s" (!i + 1) m))) in
-      let g =
-        if !i + 1 < n && String.length lines.(!i + 1) > 1 && lines.(!i + 1).[0] = 'G' then
-          Some (fields lines.(!i + 1)) else None in
-      let kind = (match inp with _ :: k :: _ -> k | _ -> "?") in
-      let c = (try build inp o g with
-               | Bad m -> raise (Bad (Printf.sprintf "line %d: %s" (!i + 1) m))
-               | Failure m -> raise (Bad (Printf.sprintf "line %d: %s" (!i + 1) m))) in
-      out := { c_line = !i + 1; c_kind = kind; c_case = c; c_nev = (if g = None then 0 else 1) } :: !out;
-      if g <> None then incr i
-    end;
-    incr i
+(* Streams the trace: calls [f] on every case as soon as it is read (a thorough
+   run writes hundreds of megabytes); [f] returns false to stop reading. *)
+let iter_file path (f : case -> bool) : unit =
+  let ic = open_in path in
+  let lineno = ref 0 in
+  let pending = ref None in
+  let next_line () =
+    match !pending with
+    | Some l -> pending := None; Some l
+    | None -> (match input_line ic with
+               | l -> incr lineno; Some l
+               | exception End_of_file -> None) in
+  let continue = ref true in
+  while !continue do
+    match next_line () with
+    | None -> continue := false
+    | Some line ->
+        if String.length line > 1 && line.[0] = 'H' && line.[1] = ' ' then begin
+          let ln = !lineno in
+          let fail m = raise (Bad (Printf.sprintf "line %d: %s" ln m)) in
+          let (inp, o) = (try fields line with Bad m -> fail m) in
+          let g =
+            match next_line () with
+            | Some l2 when String.length l2 > 1 && l2.[0] = 'G' && l2.[1] = ' ' ->
+                Some (try fields l2 with Bad m -> fail m)
+            | Some l2 -> pending := Some l2; None
+            | None -> None in
+          let kind = (match inp with _ :: k :: _ -> k | _ -> "?") in
+          let c = (try build inp o g with Bad m -> fail m | Failure m -> fail m) in
+          if not (f { c_line = ln; c_kind = kind; c_case = c; c_nev = (if g = None then 0 else 1) }) then
+            continue := false
+        end
   done;
-  List.rev !out
+  close_in ic
 
 (* ---- Coq term printers ---- *)
 let cz x = "(" ^ string_of_z x ^ ")"
@@ -197,32 +209,42 @@ let () =
   let path = Sys.argv.(1) in
   let coq_out = if Array.length Sys.argv > 3 && Sys.argv.(2) = "--coq" then Some (open_out Sys.argv.(3)) else None in
   let coq_max = if Array.length Sys.argv > 4 then int_of_string Sys.argv.(4) else 100 in
-  let cases = (try parse_file path with Bad m -> prerr_endline ("prober_driver: " ^ m); exit 2) in
-  (* stratified sample for the Coq cross-check: the same quota for every kind *)
+  (* stratified sample for the Coq cross-check: the same quota for each of the
+     seven kinds that occur more than once (B L U I T P F; K occurs once) *)
   let quota = Hashtbl.create 8 in
-  let per_kind = max 1 (coq_max / 8) in
+  let per_kind = (coq_max + 6) / 7 in
   let coq_cases = ref [] in
-  List.iteri (fun i c ->
-    match c.c_case with
-    | None ->
-        Printf.printf "hist %d line %d nev %d acc ok m:c18 1 -1 f:k_B1 0 f:k_B2 0 f:k_B3 0 f:skipped 1\n" i c.c_line c.c_nev
-    | Some k ->
-        let acc = case_acc k in
-        let mon = case_mon k in
-        let idx = int_of_z (case_mon_idx k) in
-        let k1 = case_kB1 k and k2 = case_kB2 k and k3 = case_kB3 k in
-        Printf.printf "hist %d line %d nev %d acc %s m:c18 %d %d f:k_B1 %d f:k_B2 %d f:k_B3 %d f:skipped 0\n" i c.c_line c.c_nev
-          (match acc with None -> "ok" | Some (e, cl) -> Printf.sprintf "div %d %s" (min (int_of_nat e) c.c_nev) (class_name cl))
-          (b2i mon) (if mon then -1 else idx) (b2i k1) (b2i k2) (b2i k3);
-        if coq_out <> None then begin
-          let used = (try Hashtbl.find quota c.c_kind with Not_found -> 0) in
-          let small = (match k with KPayload (s, _) -> int_of_z s <= 200 | _ -> true) in
-          if used < per_kind && small && List.length !coq_cases < coq_max then begin
-            Hashtbl.replace quota c.c_kind (used + 1);
-            coq_cases := (i, k, (acc = None, mon, k1, k2, k3)) :: !coq_cases
-          end
-        end
-  ) cases;
+  let n_coq = ref 0 in
+  let i = ref (-1) in
+  (try
+    iter_file path (fun c ->
+      incr i;
+      let i = !i in
+      (match c.c_case with
+       | None ->
+           if coq_out = None then
+             Printf.printf "hist %d line %d nev %d acc ok m:c18 1 -1 f:k_B1 0 f:k_B2 0 f:k_B3 0 f:skipped 1\n" i c.c_line c.c_nev
+       | Some k ->
+           if coq_out = None then begin
+             let acc = case_acc k in
+             let mon = case_mon k in
+             let idx = int_of_z (case_mon_idx k) in
+             let k1 = case_kB1 k and k2 = case_kB2 k and k3 = case_kB3 k in
+             Printf.printf "hist %d line %d nev %d acc %s m:c18 %d %d f:k_B1 %d f:k_B2 %d f:k_B3 %d f:skipped 0\n" i c.c_line c.c_nev
+               (match acc with None -> "ok" | Some (e, cl) -> Printf.sprintf "div %d %s" (min (int_of_nat e) c.c_nev) (class_name cl))
+               (b2i mon) (if mon then -1 else idx) (b2i k1) (b2i k2) (b2i k3)
+           end else begin
+             let used = (try Hashtbl.find quota c.c_kind with Not_found -> 0) in
+             let small = (match k with KPayload (s, _) -> int_of_z s <= 200 | _ -> true) in
+             if used < per_kind && small && !n_coq < coq_max then begin
+               Hashtbl.replace quota c.c_kind (used + 1);
+               incr n_coq;
+               coq_cases := (i, k, (case_acc k = None, case_mon k, case_kB1 k, case_kB2 k, case_kB3 k)) :: !coq_cases
+             end
+           end);
+      (* with --coq only the sample is needed: stop once it is complete *)
+      coq_out = None || !n_coq < coq_max)
+  with Bad m -> prerr_endline ("prober_driver: " ^ m); exit 2);
   match coq_out with
   | None -> ()
   | Some oc ->
